@@ -987,10 +987,12 @@ pub fn canon(m: &Model, last_obs: Option<&Value>) -> String {
         .unwrap_or_default();
     // the form of the stored address (global / relocated) is hidden state that decides how a later
     // removal by address behaves: keep it in the key
-    let bps: Vec<(u64, bool)> = last_obs
+    let mut bps: Vec<(u64, bool)> = last_obs
         .and_then(|o| o["bps"].as_array())
         .map(|v| v.iter().filter_map(|e| e["addr"].as_u64().map(|a| (a, e["global"].as_bool().unwrap_or(false)))).collect())
         .unwrap_or_default();
+    // the listing order is the iteration order of a hash map inside the debugger
+    bps.sort();
     format!(
         "{}|{}|{:?}|{:?}|{:x?}|{:x?}|{}|{}|{:?}|{}|{}|{}",
         m.started,
